@@ -347,11 +347,11 @@ to that returned by repr() in Python 2.
 `
 
 func builtin_ascii(self, o py.Object) (py.Object, error) {
-	reprObj, err := py.Repr(o)
+	reprStr, err := py.ReprAsString(o)
 	if err != nil {
 		return nil, err
 	}
-	repr := reprObj.(py.String)
+	repr := py.String(reprStr)
 	out := py.StringEscape(repr, true)
 	return py.String(out), err
 }
